@@ -144,8 +144,24 @@ Plan generate(Rng &rng, const Opts &opts, uint64_t)
         ++sid;
         if (ms.empty() || r < 22) {
             if (rng.chance(1, 6)) {
-                p.steps.push_back(mk(t, "BUILD", {sid, long(rng.below(1000)), long(rng.below(2) == 0 ? 1 + rng.below(3) : 0)}));
+                long flavour = long(rng.below(2) == 0 ? 1 + rng.below(3) : 0);
+                p.steps.push_back(mk(t, "BUILD", {sid, long(rng.below(1000)), flavour}));
                 docOf[sid] = -1;
+                if (flavour == 3) {
+                    // both variants of the same-units-name model, each analysed by the same shared analyser
+                    // instance (steps of any task: the handles are global)
+                    long first = sid, base = p.steps.back().a[1];
+                    ms.push_back(first);
+                    long second = ++sid;
+                    p.steps.push_back(mk(t, "BUILD", {second, base + 1, 3}));
+                    docOf[second] = -1;
+                    for (long m : {first, second, first}) {
+                        ++sid;
+                        p.steps.push_back(mk(int(rng.below(uint64_t(nTasks))), "ANALYSE", {sid, m, 1, 0}));
+                    }
+                    ms.push_back(second);
+                    continue;
+                }
             } else {
                 long d = docs[rng.below(docs.size())];
                 p.steps.push_back(mk(t, "PARSE", {sid, d, long(rng.below(4) != 0), inst}));
@@ -164,6 +180,11 @@ Plan generate(Rng &rng, const Opts &opts, uint64_t)
         } else if (r < 84) {
             long m = ms[rng.below(ms.size())];
             p.steps.push_back(mk(t, "RESOLVE", {sid, m, inst, long(rng.below(2))}));
+            if (inst != 0 && rng.chance(1, 2)) {
+                // the same call again, at once, on the same importer: nothing but the call itself lies in between
+                ++sid;
+                p.steps.push_back(mk(t, "RESOLVE", {sid, m, inst, p.steps.back().a[3], 1}));
+            }
             if (rng.chance(2, 3)) {
                 ++sid;
                 p.steps.push_back(mk(t, "FLATTEN", {sid, m, inst}));
@@ -293,6 +314,7 @@ struct World
     std::map<long, GeneratorPtr> generators;
     std::map<long, ImporterPtr> importers;
     std::map<std::string, Seen> seen; // call identity -> first observation
+    std::map<std::string, std::string> lastResolve; // (importer instance, model) -> verdict and issues of the last resolveImports
     std::vector<Held> held;
 };
 
@@ -618,6 +640,23 @@ void execute(const Plan &plan, Ctx &ctx)
                 bool ok = imp->resolveImports(it->second, doc.dir);
                 checkLogger(ctx, imp, "importer", "resolveImports", !ok);
                 ident = "RESOLVE|" + str(imp->isStrict()) + "|" + dg(lib) + "|" + dg(before) + "|" + doc.dir;
+                {
+                    // repeating the call: same importer, same model, nothing in between -> same verdict and same issues
+                    std::string key = str(inst) + "|" + str(s.arg(1));
+                    std::string now = str(ok) + "\n" + dumpIssues(imp);
+                    if (s.arg(4) != 0 && inst != 0) {
+                        auto prev = w.lastResolve.find(key);
+                        if (prev != w.lastResolve.end()) {
+                            ctx.count("purity_resolve_repeated_at_once");
+                            ctx.nontrivial = true;
+                            if (prev->second != now) {
+                                ctx.violate("C12", "repeated-call-different-answer", "Importer.resolveImports,same-importer", "resolveImports() repeated at once on the same importer and model answers differently: " + firstDifference(prev->second, now));
+                                return;
+                            }
+                        }
+                    }
+                    w.lastResolve[key] = now;
+                }
                 argDigest = dg(before + lib);
                 obs = str(ok) + "\n" + dumpIssues(imp) + dumpModel(it->second, withLinks) + libraryState(imp, false);
                 obsNorm = str(ok) + "\n" + dumpIssues(imp) + dumpModel(it->second, withLinks) + libraryState(imp, true);
